@@ -100,3 +100,23 @@ Proof.
   intros; apply gen_sigma_value_model; assumption.
 Qed.
 Print Assumptions C11_final_formulae_as_coded.
+
+(* the same for thermal_conductivity: right-hand side, rescaled enthalpies, k', thermal-diffusion and reaction parts, the perturbed
+   temperatures of dx/dT and the total assembly as coded are those of the model (the running accumulator of the double loop is
+   rendered by the generator as a sum over j of sums over i -- equal over R) *)
+Theorem C11_thermal_conductivity_assembly_as_coded : forall (U : Units R),
+  (forall nd i, gen_kappa_rhs1 RNum nd i = DTi_rhs1 RNum nd i) /\
+  (forall rho ntot masses h i, gen_hv_rescaled RNum rho ntot masses h i = hv_rescaled RNum rho ntot masses h i) /\
+  (forall T masses nd nb a1, gen_kdash_value RNum U T masses nd nb a1 = kdash_value RNum U T masses nd nb a1) /\
+  (forall T delta nb npos nneg j, gen_dxdT_value RNum T delta nb npos nneg j = dxdT_value RNum T delta nb npos nneg j) /\
+  (forall T delta, gen_kappa_T_pos RNum T delta = T * (1 + delta) /\ gen_kappa_T_neg RNum T delta = T * (1 - delta)) /\
+  (forall dt rho ntot T ni_limit masses nd hv DT dxdT D nb kdash,
+     gen_kappa_total RNum U dt rho ntot T ni_limit masses nd hv DT dxdT D nb kdash
+     = kappa_total RNum U dt rho ntot T ni_limit masses nd hv DT dxdT D nb kdash).
+Proof.
+  intros U.
+  split; [intros; apply gen_kappa_rhs1_model|]. split; [intros; apply gen_hv_rescaled_model|].
+  split; [intros; apply gen_kdash_value_model|]. split; [intros; apply gen_dxdT_value_model|].
+  split; [intros; apply gen_kappa_T_pm|]. intros; apply gen_kappa_total_model.
+Qed.
+Print Assumptions C11_thermal_conductivity_assembly_as_coded.
